@@ -123,6 +123,12 @@ def h_small(N, B, keymode, osfile):
         kw = {}
         if keymode == "default":
             keys = [0x69, 0x2E, 0x00]
+        elif keymode == "custom+all":
+            # caller-supplied keys first, then every other byte value — the defaults included. (The caller keys are concrete here:
+            # the library builds a set from them, and a set over symbolic members has no model.)
+            kw["xor_keys"] = [b"\xa5", b"\x5a"]
+            keys = [0xA5, 0x5A]
+            kw["all_xor_keys"] = True
         elif keymode == "custom":
             k1, k2 = sym_bytes("key1", 1), sym_bytes("key2", 1)
             kw["xor_keys"] = [V.unwrap(k1), V.unwrap(k2)] if not is_native() else [V.to_native(k1), V.to_native(k2)]
@@ -144,7 +150,7 @@ def h_small(N, B, keymode, osfile):
             else:
                 I.clear_override(UTILS, "io")
                 I.stubs.pop(pe.find_mz_offset, None)
-        check_result(ctx, F.cells, keys, kind, r, all_keys=(keymode == "all"))
+        check_result(ctx, F.cells, keys, kind, r, all_keys=(keymode in ("all", "custom+all")))
     return body
 
 
@@ -325,6 +331,8 @@ def instances(tier):
                     out.append(Instance("H1 file=%d buffer=%d keys=%s %s" % (N, B, km, "osfile" if osf else "bytesio"), h_small(N, B, km, osf),
                                         dict(kind="H1", file=N, buffer=B, keys=km, file_model="os" if osf else "BytesIO", cost=4 ** N),
                                         split=12, max_loop=3000))
+    out.append(Instance("H1 file=7 buffer=8 keys=custom+all", h_small(7, 8, "custom+all", False), dict(kind="H1", file=7, buffer=8, keys="caller keys a5 5a, then all", cost=10 ** 9),
+                        split=12, max_loop=3000, timeout=1400))
     for N in ((7,) if q else (7, 8)):
         out.append(Instance("H1 file=%d buffer=8 keys=all" % N, h_small(N, 8, "all", False), dict(kind="H1", file=N, buffer=8, keys="all", cost=10 ** 9),
                             split=12, max_loop=3000, timeout=1400))
